@@ -19,6 +19,7 @@ import (
 func init() {
 	core.Register(&core.Scenario{Prop: "C12", Name: "patch-apply", Weight: 20, Fn: c12Run})
 	core.Register(&core.Scenario{Prop: "C12", Name: "patch-huge", Weight: 1, Fn: c12Huge})
+	core.Register(&core.Scenario{Prop: "C12", Name: "patch-same-offset", Weight: 2, Fn: c12SameOffset})
 }
 
 type c12Patch struct {
@@ -333,6 +334,16 @@ func c12Run(r *core.Run) {
 	// serialise / parse round trip
 	ps := c.build()
 	dump := ps.Dump()
+	// what Dump returned is the caller's: serialising another patch set (the
+	// next request's, say) must not change it
+	snapshot := append([]byte(nil), dump...)
+	decoy := binpatch.New()
+	decoy.Add(0, 0, t.Bytes(len(dump)+9, "decoy-blob"))
+	_ = decoy.Dump()
+	if !bytes.Equal(dump, snapshot) {
+		r.Failf("C12.dump-aliased", "after-next-dump", "the bytes Dump returned (%d) changed when another patch set was serialised afterwards: first difference at %d", len(dump), firstDiff(dump, snapshot))
+		dump = snapshot
+	}
 	loaded, err := binpatch.Load(dump)
 	if err != nil {
 		r.Failf("C12.roundtrip.load-failed", shape, "Load(Dump(p)) failed: %v", err)
@@ -595,5 +606,50 @@ func c12Huge(r *core.Run) {
 	}
 	if !bytes.Equal(got, want) {
 		r.Failf("C12.result-differs", key, "over-4-GiB range (hole=%d, %d patches): output has %d bytes, want %d; first difference at %d", hole, len(ps.Patches), len(got), len(want), firstDiff(got, want))
+	}
+}
+
+// c12SameOffset: two patches at one offset that the builder does not coalesce
+// because an Add elsewhere came between them - an insertion in front of a
+// member that is dropped, as the jar signer builds when the directory lists
+// the first member after another dropped one: Add(x, 0, new), Add(y, n, nil),
+// Add(x, k, nil).  The insertion comes first (it was added first), then the
+// old range is replaced.
+func c12SameOffset(r *core.Run) {
+	t := r.T
+	root := core.NewScratch()
+	defer core.RemoveScratch(root)
+	L := 200 + t.Choose(70000, "len")
+	in := t.Bytes(L, "in")
+	x := int64(t.Choose(50, "x"))
+	k := int64(1 + t.Choose(40, "k"))
+	y := x + k + int64(1+t.Choose(60, "gap"))
+	n := int64(1 + t.Choose(30, "n"))
+	ins := t.Bytes(1+t.Choose(80, "inslen"), "ins")
+	repl := t.Bytes(t.Choose(3, "repllen")*7, "repl") // empty (dropped) or a few bytes
+	ps := binpatch.New()
+	ps.Add(x, 0, ins)
+	ps.Add(y, n, nil)
+	ps.Add(x, k, repl)
+	want := append([]byte(nil), in[:x]...)
+	want = append(want, ins...)
+	want = append(want, repl...)
+	want = append(want, in[x+k:y]...)
+	want = append(want, in[y+n:]...)
+	dump := ps.Dump()
+	r.Probe("two-patches-at-one-offset")
+	for _, mode := range []string{"same", "other-absent", "same+link"} {
+		out := c12Exec(root, mode, in, nil, bytes.NewReader(dump))
+		r.Evals++
+		r.Sig(fmt.Sprintf("same-offset/%s/repl=%d", mode, len(repl)))
+		key := "same-offset/" + mode
+		switch {
+		case out.panicv != nil:
+			r.Failf("C12.panic", key, "Apply panicked: %v", out.panicv)
+		case out.err != nil:
+			r.Failf("C12.apply-failed", key, "a patch set the jar signer builds (insert at %d, drop %d+%d, then replace %d+%d) does not apply after a round trip: %v", x, y, n, x, k, out.err)
+		case !out.destOK || !bytes.Equal(out.dest, want):
+			r.Failf("C12.result-differs", key, "insert at %d then replace %d+%d (and drop %d+%d): output differs from the reference at %d (got %d bytes, want %d)", x, x, k, y, n, firstDiff(out.dest, want), len(out.dest), len(want))
+		}
 	}
 }
